@@ -189,6 +189,10 @@ def run_phase(cfg, check, tier, seed, work, phase, agg, only=None):
             if sig == signal.SIGKILL:
                 agg["inconclusive"].append(f"worker {w.shard} was killed (SIGKILL, out of memory?) in case {case}")
                 continue
+            if sig in (signal.SIGTERM, signal.SIGINT, signal.SIGHUP, signal.SIGQUIT):
+                # sent from outside (operator, session teardown); the code under test cannot raise these
+                agg["inconclusive"].append(f"worker {w.shard} was terminated from outside ({signal.Signals(sig).name}) in case {case}")
+                continue
             if case is None or state != 1:
                 agg["inconclusive"].append(f"worker {w.shard} died (status {rc}) outside any case: {tail[-300:]}")
                 continue
